@@ -98,6 +98,10 @@ Qed.
 Definition erase (dl : list Z) (st : store) : store :=
   {| s_ds := filter (fun p => negb (zmem (fst p) dl)) (s_ds st); s_clock := s_clock st |}.
 
+Lemma collect_cons {K A} (ok : K -> bool) (f : dstate -> list A) p l :
+  collect ok f (p :: l) = (if ok (fst p) then map (pair (fst p)) (f (snd p)) else []) ++ collect ok f l.
+Proof. reflexivity. Qed.
+
 Lemma entity_at_fold id at_ scope l : forall acc,
   fold_left (fun (acc : list (Z * content) * bool) (p : Z * dstate) =>
                if in_scope scope (fst p) then
@@ -109,12 +113,12 @@ Lemma entity_at_fold id at_ scope l : forall acc,
   = (fst acc ++ filter (fun p => negb (c_del (snd p))) (collect (in_scope scope) (f_get id at_) l),
      snd acc || existsb (fun p => c_del (snd p)) (collect (in_scope scope) (f_get id at_) l)).
 Proof.
-  induction l as [|p l IH]; intros [ps hd]; cbn.
-  - now rewrite app_nil_r, orb_false_r.
-  - rewrite IH. unfold collect at 2 4. cbn [flat_map]. fold (collect (in_scope scope) (f_get id at_) l).
-    destruct (in_scope scope (fst p)); cbn; [|reflexivity].
-    unfold f_get. destruct (best_version id at_ (d_entries (snd p)) None) as [e|]; cbn; [|reflexivity].
-    destruct (c_del (en_c e)); cbn.
+  induction l as [|p l IH]; intros [ps hd].
+  - cbn. now rewrite app_nil_r, orb_false_r.
+  - cbn [fold_left]. rewrite IH. rewrite (collect_cons _ _ p l), filter_app, existsb_app.
+    destruct (in_scope scope (fst p)); cbn [fst snd]; [|reflexivity].
+    unfold f_get. destruct (best_version id at_ (d_entries (snd p)) None) as [e|]; cbn [map filter existsb app fst snd]; [|reflexivity].
+    destruct (c_del (en_c e)); cbn [negb orb app fst snd].
     + now rewrite orb_true_r.
     + now rewrite <- app_assoc.
 Qed.
@@ -194,3 +198,740 @@ Proof.
   intros NL. rewrite (hidden_all (gc h)) by now apply names_live_gc.
   rewrite purge_gc. symmetry. now apply hidden_all.
 Qed.
+
+(** ** The registry invariant, for every variant and every history (writes, manager operations,
+    garbage collection, restarts, crashes at every hook point). *)
+Fixpoint incr (lo : Z) (l : list Z) : Prop :=
+  match l with [] => True | x :: l' => lo < x /\ incr x l' end.
+
+Record rinv (st : store) (r : registry) : Prop := {
+  ri_sorted : incr 0 (map fst (s_ds st));                                   (* dataset ids of the data, strictly increasing *)
+  ri_bound : Forall (fun i => i < r_next r) (map fst (s_ds st));            (* every id in use is below the next id *)
+  ri_names : NoDup (map fst (r_names r));
+  ri_ids : NoDup (map snd (r_names r));
+  ri_idb : Forall (fun i => 0 < i < r_next r) (map snd (r_names r));
+  ri_live : Forall (fun i => zmem i (r_deleted r) = false) (map snd (r_names r));
+  ri_data : Forall (fun i => In i (map fst (s_ds st))) (map snd (r_names r));
+  ri_delb : Forall (fun i => i < r_next r) (r_deleted r);
+  ri_nextpos : 0 < r_next r
+}.
+Definition dinvh (h : hub) : Prop := rinv (h_st h) (h_disk h).
+Definition hinv (h : hub) : Prop := h_mem h = h_disk h /\ dinvh h.
+
+Lemma incr_lt lo l : incr lo l -> Forall (fun x => lo < x) l.
+Proof.
+  revert lo. induction l as [|x l IH]; intros lo H; constructor; destruct H as [H1 H2]; [exact H1|].
+  eapply Forall_impl; [|apply IH; exact H2]. cbn. intros; lia.
+Qed.
+Lemma incr_NoDup lo l : incr lo l -> NoDup l.
+Proof.
+  revert lo. induction l as [|x l IH]; intros lo H; constructor; destruct H as [H1 H2].
+  - intros Hin. apply incr_lt in H2. rewrite Forall_forall in H2. specialize (H2 _ Hin). lia.
+  - eapply IH; eauto.
+Qed.
+Lemma incr_snoc lo l x : incr lo l -> Forall (fun y => y < x) l -> lo < x -> incr lo (l ++ [x]).
+Proof.
+  revert lo. induction l as [|y l IH]; intros lo H F L; cbn; [tauto|].
+  destruct H as [H1 H2]. inversion F; subst. split; [exact H1 | apply IH; auto].
+Qed.
+Lemma incr_filter lo (p : Z -> bool) l : incr lo l -> incr lo (filter p l).
+Proof.
+  revert lo. induction l as [|y l IH]; intros lo H; cbn; [exact I|]. destruct H as [H1 H2].
+  destruct (p y); cbn; [split; auto|]. apply IH.
+  clear -H1 H2. destruct l; cbn in *; [exact I | destruct H2; split; [lia | assumption]].
+Qed.
+
+Lemma set_assoc_keys {V} i (v : V) l lo :
+  incr lo (map fst l) -> In i (map fst l) -> map fst (set_assoc i v l) = map fst l.
+Proof.
+  revert lo. induction l as [|[k w] l IH]; intros lo H Hin; cbn in *; [tauto|].
+  destruct H as [H1 H2]. destruct (Z.eqb_spec i k); [subst; reflexivity|].
+  destruct Hin as [E|Hin]; [congruence|].
+  destruct (Z.ltb_spec i k).
+  - apply incr_lt in H2. rewrite Forall_forall in H2. specialize (H2 _ Hin). lia.
+  - cbn. f_equal. eapply IH; eauto.
+Qed.
+Lemma map_fst_filter_keys {V} (p : Z -> bool) (l : list (Z * V)) :
+  map fst (filter (fun q => p (fst q)) l) = filter p (map fst l).
+Proof. induction l as [|[k w] l IH]; cbn; [reflexivity|]. destruct (p k); cbn; now rewrite IH. Qed.
+
+Lemma map_fst_remove n (l : list (name * Z)) : forall x, In x (remove_name n l) -> In x l /\ fst x <> n.
+Proof.
+  intros x H. unfold remove_name in H. apply filter_In in H. destruct H as [H1 H2]. split; [exact H1|].
+  apply negb_true_iff in H2. now apply Z.eqb_neq in H2.
+Qed.
+Lemma NoDup_map_filter {A B} (f : A -> B) (p : A -> bool) l : NoDup (map f l) -> NoDup (map f (filter p l)).
+Proof.
+  induction l as [|x l IH]; cbn; intros H; [constructor|]. inversion H; subst.
+  destruct (p x); cbn; [constructor|]; auto.
+  intros Hin. apply H2. apply in_map_iff in Hin. destruct Hin as (y & E & Hy). apply filter_In in Hy.
+  apply in_map_iff. exists y. tauto.
+Qed.
+Lemma Forall_map_filter {A B} (f : A -> B) (p : A -> bool) (P : B -> Prop) l :
+  Forall P (map f l) -> Forall P (map f (filter p l)).
+Proof.
+  induction l as [|x l IH]; cbn; intros H; [constructor|]. inversion H; subst.
+  destruct (p x); cbn; [constructor|]; auto.
+Qed.
+Lemma map_snd_relabel o n l : map snd (relabel o n l) = map snd l.
+Proof. unfold relabel. induction l as [|[m j] l IH]; cbn; [reflexivity|]. rewrite IH. now destruct (Z.eqb m o). Qed.
+Lemma map_fst_relabel o n l :
+  map fst (relabel o n l) = map (fun m => if Z.eqb m o then n else m) (map fst l).
+Proof. unfold relabel. induction l as [|[m j] l IH]; cbn; [reflexivity|]. rewrite IH. now destruct (Z.eqb m o). Qed.
+Lemma NoDup_relabel o n l : NoDup (map fst l) -> ~ In n (map fst l) -> NoDup (map fst (relabel o n l)).
+Proof.
+  rewrite map_fst_relabel. generalize (map fst l) as ks. induction ks as [|k ks IH]; cbn; intros ND Hn; [constructor|].
+  inversion ND; subst. constructor; [|apply IH; tauto].
+  intros Hin. apply in_map_iff in Hin. destruct Hin as (y & E & Hy).
+  destruct (Z.eqb_spec k o), (Z.eqb_spec y o); subst; try tauto; try congruence.
+Qed.
+
+Lemma assoc_app_some {V} k (l l' : list (Z * V)) v : assoc k l = Some v -> assoc k (l ++ l') = Some v.
+Proof. induction l as [|[k' w] l IH]; cbn; [discriminate|]. destruct (Z.eqb k k'); auto. Qed.
+Lemma assoc_app_none {V} k (l l' : list (Z * V)) : assoc k l = None -> assoc k (l ++ l') = assoc k l'.
+Proof. induction l as [|[k' w] l IH]; cbn; [reflexivity|]. destruct (Z.eqb k k'); [discriminate | auto]. Qed.
+Lemma assoc_remove_other m n l : m <> n -> assoc m (remove_name n l) = assoc m l.
+Proof.
+  intros H. unfold remove_name. induction l as [|[k w] l IH]; cbn; [reflexivity|].
+  destruct (Z.eqb_spec k n); cbn.
+  - subst. destruct (Z.eqb_spec m n); [congruence | exact IH].
+  - destruct (Z.eqb m k); [reflexivity | exact IH].
+Qed.
+Lemma assoc_remove_same n l : assoc n (remove_name n l) = None.
+Proof.
+  apply assoc_None. intros H. apply in_map_iff in H. destruct H as (x & E & Hx).
+  apply map_fst_remove in Hx. tauto.
+Qed.
+Lemma assoc_relabel_other m o n l : m <> o -> m <> n -> assoc m (relabel o n l) = assoc m l.
+Proof.
+  intros H1 H2. unfold relabel. induction l as [|[k w] l IH]; cbn; [reflexivity|].
+  destruct (Z.eqb_spec k o); cbn.
+  - subst. destruct (Z.eqb_spec m n), (Z.eqb_spec m o); try congruence.
+  - destruct (Z.eqb m k); [reflexivity | exact IH].
+Qed.
+Lemma assoc_relabel_new o n l i : assoc o l = Some i -> assoc n l = None -> assoc n (relabel o n l) = Some i.
+Proof.
+  unfold relabel. induction l as [|[k w] l IH]; cbn; [discriminate|].
+  destruct (Z.eqb_spec o k); intros H1 H2.
+  - inversion H1; subst. rewrite Z.eqb_refl. cbn. now rewrite Z.eqb_refl.
+  - destruct (Z.eqb_spec n k); [discriminate|]. destruct (Z.eqb_spec k o); [congruence|]. cbn.
+    destruct (Z.eqb_spec n k); [congruence | auto].
+Qed.
+Lemma assoc_relabel_old o n l : o <> n -> assoc n l = None -> assoc o (relabel o n l) = None.
+Proof.
+  intros Hon H. apply assoc_None. rewrite map_fst_relabel. intros Hin. apply in_map_iff in Hin.
+  destruct Hin as (y & E & Hy). destruct (Z.eqb_spec y o); congruence.
+Qed.
+
+Lemma NoDup_app_snoc {A} (l : list A) x : NoDup l -> ~ In x l -> NoDup (l ++ [x]).
+Proof.
+  induction l as [|y l IH]; cbn; intros ND Hx; [constructor; [tauto | constructor]|].
+  inversion ND; subst. constructor; [|apply IH; tauto].
+  intros Hin. apply in_app_or in Hin. destruct Hin as [Hin|[E|[]]]; [tauto | subst; tauto].
+Qed.
+
+Ltac inv_rinv H := destruct H as [Hsorted Hbound Hnames Hids Hidb Hlive Hdata Hdelb Hnextpos].
+
+(** step lemmas on (store, persisted registry) *)
+Lemma rinv_next st r : rinv st r -> rinv st (r_set_next (r_next r + 1) r).
+Proof.
+  intros H. inv_rinv H. constructor; cbn; auto.
+  - eapply Forall_impl; [|exact Hbound]; cbn; intros; lia.
+  - eapply Forall_impl; [|exact Hidb]; cbn; intros; lia.
+  - eapply Forall_impl; [|exact Hdelb]; cbn; intros; lia.
+  - lia.
+Qed.
+
+Lemma rinv_create st r n i :
+  rinv st r -> assoc n (r_names r) = None -> i < r_next r -> 0 < i ->
+  Forall (fun j => j < i) (map fst (s_ds st)) -> Forall (fun j => j < i) (map snd (r_names r)) ->
+  Forall (fun j => j < i) (r_deleted r) ->
+  rinv {| s_ds := s_ds st ++ [(i, dstate0)]; s_clock := s_clock st |} (r_set_names (fun l => l ++ [(n, i)]) r).
+Proof.
+  intros H Hn Hi Hi0 F1 F2 F3. inv_rinv H. constructor; cbn.
+  - rewrite map_app. cbn. apply incr_snoc; auto.
+  - rewrite map_app. apply Forall_app. split; [exact Hbound | constructor; [exact Hi | constructor]].
+  - rewrite map_app. cbn. apply NoDup_app_snoc; [exact Hnames|]. now apply assoc_None.
+  - rewrite map_app. cbn. apply NoDup_app_snoc; [exact Hids|].
+    intros Hin. rewrite Forall_forall in F2. specialize (F2 _ Hin). lia.
+  - rewrite map_app. apply Forall_app. split; [exact Hidb | constructor; [cbn; lia | constructor]].
+  - rewrite map_app. apply Forall_app. split; [exact Hlive | constructor; [|constructor]].
+    apply zmem_false. cbn. intros Hin. rewrite Forall_forall in F3. specialize (F3 _ Hin). lia.
+  - rewrite !map_app. apply Forall_app. split.
+    + eapply Forall_impl; [|exact Hdata]. cbn. intros a Ha. apply in_or_app. now left.
+    + constructor; [|constructor]. apply in_or_app. right. now left.
+  - exact Hdelb.
+  - exact Hnextpos.
+Qed.
+
+Lemma names_id_of st r n i : rinv st r -> assoc n (r_names r) = Some i ->
+  0 < i < r_next r /\ zmem i (r_deleted r) = false /\ In i (map fst (s_ds st)).
+Proof.
+  intros H Hn. inv_rinv H. apply assoc_In in Hn.
+  assert (Hin : In i (map snd (r_names r))) by (change i with (snd (n, i)); now apply in_map).
+  rewrite Forall_forall in Hidb, Hlive, Hdata. auto.
+Qed.
+Lemma other_id st r n i m j : rinv st r -> assoc n (r_names r) = Some i -> assoc m (r_names r) = Some j -> m <> n -> j <> i.
+Proof.
+  intros H Hn Hm Hmn E. subst j. inv_rinv H. apply assoc_In in Hn, Hm.
+  apply (In_rassoc _ _ _ Hids) in Hn. apply (In_rassoc _ _ _ Hids) in Hm. congruence.
+Qed.
+
+(** removing a record, with the deleted set extended by its id or not (yet) *)
+Lemma rinv_remove st r n i (add : bool) :
+  rinv st r -> assoc n (r_names r) = Some i ->
+  rinv st (let r1 := r_set_names (remove_name n) r in if add then r_add_deleted i r1 else r1).
+Proof.
+  intros H Hn. pose proof (names_id_of _ _ _ _ H Hn) as (Hb & _ & _). pose proof H as H0. inv_rinv H.
+  assert (Hother : forall j, In j (map snd (remove_name n (r_names r))) -> j <> i).
+  { intros j Hj. apply in_map_iff in Hj. destruct Hj as ([m j'] & E & Hx). cbn in E. subst j'.
+    apply map_fst_remove in Hx. destruct Hx as [Hx Hne]. cbn in Hne.
+    eapply other_id; eauto. apply In_assoc; auto. }
+  assert (R : rinv st (r_set_names (remove_name n) r)).
+  { constructor; cbn; auto.
+    - now apply NoDup_map_filter.
+    - now apply NoDup_map_filter.
+    - now apply Forall_map_filter.
+    - now apply Forall_map_filter.
+    - now apply Forall_map_filter. }
+  destruct add; [|exact R]. destruct R as [R1 R2 R3 R4 R5 R6 R7 R8 R9]. cbn in *. constructor; cbn; auto.
+  - rewrite Forall_forall in *. intros j Hj. rewrite existsb_app, (R6 _ Hj). cbn.
+    rewrite orb_false_r. apply Z.eqb_neq. auto.
+  - apply Forall_app. split; [assumption | constructor; [lia | constructor]].
+Qed.
+Lemma rinv_add_deleted st r i :
+  rinv st r -> ~ In i (map snd (r_names r)) -> i < r_next r -> rinv st (r_set_deleted (r_deleted r ++ [i]) r).
+Proof.
+  intros H Hi Hb. inv_rinv H. constructor; cbn; auto.
+  - rewrite Forall_forall in *. intros j Hj. specialize (Hlive _ Hj). unfold zmem in *.
+    rewrite existsb_app, Hlive. cbn.
+    rewrite orb_false_r. apply Z.eqb_neq. intros E; subst; tauto.
+  - apply Forall_app. split; [assumption | constructor; [lia | constructor]].
+Qed.
+Lemma rinv_relabel st r o n i :
+  rinv st r -> assoc o (r_names r) = Some i -> assoc n (r_names r) = None -> rinv st (r_set_names (relabel o n) r).
+Proof.
+  intros H Ho Hn. inv_rinv H. constructor; cbn; auto; try (rewrite map_snd_relabel; assumption).
+  apply NoDup_relabel; [assumption | now apply assoc_None].
+Qed.
+Lemma rinv_gc st r dl :
+  (forall i, zmem i dl = true -> zmem i (r_deleted r) = true) -> rinv st r ->
+  rinv {| s_ds := filter (fun p => negb (zmem (fst p) dl)) (s_ds st); s_clock := s_clock st |} r.
+Proof.
+  intros Hsub H. inv_rinv H. constructor; cbn; auto.
+  - rewrite (map_fst_filter_keys (fun i => negb (zmem i dl))). now apply incr_filter.
+  - rewrite (map_fst_filter_keys (fun i => negb (zmem i dl))). apply Forall_forall. intros x Hx.
+    apply filter_In in Hx. rewrite Forall_forall in Hbound. apply Hbound. tauto.
+  - rewrite (map_fst_filter_keys (fun i => negb (zmem i dl))). rewrite Forall_forall in *. intros j Hj.
+    apply filter_In. split; [auto|]. specialize (Hlive _ Hj). destruct (zmem j dl) eqn:E; [|reflexivity].
+    apply Hsub in E. congruence.
+Qed.
+Lemma rinv_write st r ef dm i ents :
+  rinv st r -> In i (map fst (s_ds st)) -> rinv (apply_wop ef dm st (WBatch i ents)) r.
+Proof.
+  intros H Hi. inv_rinv H.
+  assert (K : map fst (s_ds (apply_wop ef dm st (WBatch i ents))) = map fst (s_ds st)).
+  { cbn. eapply set_assoc_keys; eauto. }
+  constructor; try rewrite K; auto.
+Qed.
+
+(** hub level *)
+Lemma run_steps_prefix3 (a b c : hub -> hub) k h :
+  let r := run_steps (firstn k [a; b; c]) h in r = h \/ r = a h \/ r = b (a h) \/ r = c (b (a h)).
+Proof. destruct k as [|[|[|k]]]; cbn; auto. destruct k; cbn; auto. Qed.
+Lemma run_steps_prefix2 (a b : hub -> hub) k h :
+  let r := run_steps (firstn k [a; b]) h in r = h \/ r = a h \/ r = b (a h).
+Proof. destruct k as [|[|k]]; cbn; auto. destruct k; cbn; auto. Qed.
+Lemma run_steps_prefix1 (a : hub -> hub) k h :
+  let r := run_steps (firstn k [a]) h in r = h \/ r = a h.
+Proof. destruct k as [|k]; cbn; auto. destruct k; cbn; auto. Qed.
+Lemma run_steps_prefix0 k h : run_steps (firstn k []) h = h.
+Proof. destruct k; reflexivity. Qed.
+
+Lemma has_name_assoc {V} n (l : list (name * V)) : has_name n l = false <-> assoc n l = None.
+Proof. unfold has_name. destruct (assoc n l); split; congruence. Qed.
+
+(** every prefix of the steps of a manager operation keeps the persisted state consistent, and the
+    complete operation leaves the in-memory registry equal to the persisted one *)
+Lemma plan_inv v m h : hinv h ->
+  (forall k, dinvh (run_steps (firstn k (fst (plan v m h))) h)) /\ hinv (run_steps (fst (plan v m h)) h).
+Proof.
+  intros [Hs Hd]. destruct h as [st meta mem disk]. cbn in Hs. subst mem. unfold dinvh in Hd. cbn in Hd.
+  assert (Hh : hinv {| h_st := st; h_meta := meta; h_mem := disk; h_disk := disk |}) by (split; [reflexivity | exact Hd]).
+  destruct m as [n | n | o n]; cbn [plan h_mem h_meta r_names].
+  - (* create *)
+    destruct (has_name n (r_names disk)) eqn:En; cbn [fst].
+    { split; [intros k; rewrite run_steps_prefix0; exact Hd | exact Hh]. }
+    apply has_name_assoc in En.
+    pose proof Hd as Hd0. inv_rinv Hd0.
+    assert (R1 : rinv st (r_set_next (r_next disk + 1) disk)) by now apply rinv_next.
+    assert (R2 : rinv {| s_ds := s_ds st ++ [(r_next disk, dstate0)]; s_clock := s_clock st |}
+                      (r_set_names (fun l => l ++ [(n, r_next disk)]) (r_set_next (r_next disk + 1) disk))).
+    { apply rinv_create; cbn; auto; try lia.
+      eapply Forall_impl; [|exact Hidb]. cbn. intros; lia. }
+    split.
+    + intros k. pose proof (run_steps_prefix3 create1 (create2 n (r_next disk)) (create3 n) k
+                              {| h_st := st; h_meta := meta; h_mem := disk; h_disk := disk |}) as P.
+      cbv zeta in P. destruct P as [P|[P|[P|P]]]; rewrite P; unfold dinvh; cbn; assumption.
+    + split; [reflexivity | unfold dinvh; cbn; exact R2].
+  - (* delete *)
+    destruct (Z.eqb n core); cbn [fst].
+    { split; [intros k; rewrite run_steps_prefix0; exact Hd | exact Hh]. }
+    destruct (assoc n (r_names disk)) as [i|] eqn:En; cbn [fst].
+    2:{ split; [intros k; rewrite run_steps_prefix0; exact Hd | exact Hh]. }
+    pose proof (rinv_remove st disk n i false Hd En) as Ra.
+    pose proof (rinv_remove st disk n i true Hd En) as Rb. cbv zeta in Ra, Rb. cbn [andb] in Ra, Rb.
+    destruct (assoc n meta) as [b|]; cbn [fst].
+    + split.
+      * intros k. pose proof (run_steps_prefix3 (delete1 (v_del_atomic v) n i) (delete2 (v_del_atomic v) i) (delete3 n) k
+                              {| h_st := st; h_meta := meta; h_mem := disk; h_disk := disk |}) as P.
+        cbv zeta in P. destruct (v_del_atomic v); destruct P as [P|[P|[P|P]]]; rewrite P; unfold dinvh; cbn; assumption.
+      * destruct (v_del_atomic v); (split; [reflexivity | unfold dinvh; cbn; exact Rb]).
+    + split.
+      * intros k. pose proof (run_steps_prefix2 (delete1 (v_del_atomic v) n i) (delete2 (v_del_atomic v) i) k
+                              {| h_st := st; h_meta := meta; h_mem := disk; h_disk := disk |}) as P.
+        cbv zeta in P. destruct (v_del_atomic v); destruct P as [P|[P|P]]; rewrite P; unfold dinvh; cbn; assumption.
+      * destruct (v_del_atomic v); (split; [reflexivity | unfold dinvh; cbn; exact Rb]).
+  - (* rename *)
+    destruct (Z.eqb o core); cbn [fst].
+    { split; [intros k; rewrite run_steps_prefix0; exact Hd | exact Hh]. }
+    destruct (assoc o (r_names disk)) as [i|] eqn:Eo; cbn [fst].
+    2:{ split; [intros k; rewrite run_steps_prefix0; exact Hd | exact Hh]. }
+    destruct (Z.eqb n o); cbn [fst].
+    { split; [intros k; rewrite run_steps_prefix0; exact Hd | exact Hh]. }
+    destruct (has_name n (r_names disk)) eqn:En; cbn [fst].
+    { split; [intros k; rewrite run_steps_prefix0; exact Hd | exact Hh]. }
+    apply has_name_assoc in En.
+    pose proof (rinv_relabel st disk o n i Hd Eo En) as R.
+    destruct (assoc o meta) as [b|]; cbn [fst].
+    + split.
+      * intros k. pose proof (run_steps_prefix3 (rename1 o n) (rename2 o) (rename3 n) k
+                              {| h_st := st; h_meta := meta; h_mem := disk; h_disk := disk |}) as P.
+        cbv zeta in P. destruct P as [P|[P|[P|P]]]; rewrite P; unfold dinvh; cbn; assumption.
+      * split; [reflexivity | unfold dinvh; cbn; exact R].
+    + split.
+      * intros k. pose proof (run_steps_prefix1 (rename1 o n) k
+                              {| h_st := st; h_meta := meta; h_mem := disk; h_disk := disk |}) as P.
+        cbv zeta in P. destruct P as [P|P]; rewrite P; unfold dinvh; cbn; assumption.
+      * split; [reflexivity | unfold dinvh; cbn; exact R].
+Qed.
+
+Lemma restart_hinv v h : dinvh h -> hinv (restart v h).
+Proof.
+  intros H. unfold restart. destruct (v_reconcile v); (split; [reflexivity | exact H]).
+Qed.
+
+Lemma hinv_names_live h : hinv h -> names_live h.
+Proof.
+  intros [Hs Hd] n i Hn. unfold h_names in Hn. unfold h_del. rewrite Hs in *.
+  now destruct (names_id_of _ _ _ _ Hd Hn) as (_ & ? & _).
+Qed.
+
+Theorem hinv_step v h o : hinv h -> hinv (step v h o).
+Proof.
+  intros H. destruct o as [n ents | m | | | m k]; cbn [step].
+  - unfold write. destruct (assoc n (r_names (h_mem h))) as [i|] eqn:En; cbn [fst]; [|exact H].
+    destruct H as [Hs Hd]. split; [exact Hs|]. unfold dinvh in *. cbn.
+    apply rinv_write; [exact Hd|]. rewrite Hs in En. now destruct (names_id_of _ _ _ _ Hd En) as (_ & _ & ?).
+  - unfold run_mop. destruct (plan v m h) as [ss oc] eqn:E. cbn [fst].
+    pose proof (plan_inv v m h H) as [_ P]. now rewrite E in P.
+  - destruct H as [Hs Hd]. split; [exact Hs|]. unfold dinvh in *. cbn.
+    apply rinv_gc; [|exact Hd]. rewrite Hs. auto.
+  - apply restart_hinv. apply H.
+  - unfold crash_mop. apply restart_hinv. apply plan_inv. exact H.
+Qed.
+
+Lemma hinv0 : hinv hub0.
+Proof.
+  split; [reflexivity|]. unfold dinvh. cbn. constructor; cbn; repeat constructor; auto; try lia; intros [|[]]; discriminate.
+Qed.
+Theorem hinv_run v ops : forall h, hinv h -> hinv (run v ops h).
+Proof. induction ops as [|o ops IH]; intros h H; cbn; [exact H | apply IH; now apply hinv_step]. Qed.
+(** ** fresh ids *)
+Lemma next_mono_step v h o : hinv h -> r_next (h_mem h) <= r_next (h_mem (step v h o)).
+Proof.
+  intros [Hs Hd]. destruct h as [st meta mem disk]. cbn in Hs. subst mem.
+  destruct o as [n ents | m | | | m k]; cbn [step].
+  - unfold write. cbn. destruct (assoc n (r_names disk)); cbn; lia.
+  - unfold run_mop. destruct m as [n|n|o n]; cbn [plan h_mem h_meta r_names].
+    + destruct (has_name n (r_names disk)); cbn; lia.
+    + destruct (Z.eqb n core); [cbn; lia|]. destruct (assoc n (r_names disk)); [|cbn; lia].
+      destruct (assoc n meta); destruct (v_del_atomic v); cbn; lia.
+    + destruct (Z.eqb o core); [cbn; lia|]. destruct (assoc o (r_names disk)); [|cbn; lia].
+      destruct (Z.eqb n o); [cbn; lia|]. destruct (has_name n (r_names disk)); [cbn; lia|].
+      destruct (assoc o meta); cbn; lia.
+  - cbn. lia.
+  - unfold restart. destruct (v_reconcile v); cbn; lia.
+  - unfold crash_mop, restart. 
+    assert (G : forall h', r_next (h_mem (if v_reconcile v then upd_meta (reconcile (map fst (r_names (h_disk h')))) {| h_st := h_st h'; h_meta := h_meta h'; h_mem := h_disk h'; h_disk := h_disk h' |} else {| h_st := h_st h'; h_meta := h_meta h'; h_mem := h_disk h'; h_disk := h_disk h' |})) = r_next (h_disk h')).
+    { intros h'. destruct (v_reconcile v); reflexivity. }
+    rewrite G. clear G.
+    destruct m as [n|n|o n]; cbn [plan h_mem h_meta r_names].
+    + destruct (has_name n (r_names disk)); cbn [fst]; [rewrite run_steps_prefix0; cbn; lia|].
+      destruct (run_steps_prefix3 create1 (create2 n (r_next disk)) (create3 n) k {| h_st := st; h_meta := meta; h_mem := disk; h_disk := disk |}) as [P|[P|[P|P]]]; rewrite P; cbn; lia.
+    + destruct (Z.eqb n core); cbn [fst]; [rewrite run_steps_prefix0; cbn; lia|].
+      destruct (assoc n (r_names disk)) as [i|]; cbn [fst]; [|rewrite run_steps_prefix0; cbn; lia].
+      destruct (assoc n meta); cbn [fst].
+      * destruct (run_steps_prefix3 (delete1 (v_del_atomic v) n i) (delete2 (v_del_atomic v) i) (delete3 n) k {| h_st := st; h_meta := meta; h_mem := disk; h_disk := disk |}) as [P|[P|[P|P]]]; rewrite P; destruct (v_del_atomic v); cbn; lia.
+      * destruct (run_steps_prefix2 (delete1 (v_del_atomic v) n i) (delete2 (v_del_atomic v) i) k {| h_st := st; h_meta := meta; h_mem := disk; h_disk := disk |}) as [P|[P|P]]; rewrite P; destruct (v_del_atomic v); cbn; lia.
+    + destruct (Z.eqb o core); cbn [fst]; [rewrite run_steps_prefix0; cbn; lia|].
+      destruct (assoc o (r_names disk)) as [i|]; cbn [fst]; [|rewrite run_steps_prefix0; cbn; lia].
+      destruct (Z.eqb n o); cbn [fst]; [rewrite run_steps_prefix0; cbn; lia|].
+      destruct (has_name n (r_names disk)); cbn [fst]; [rewrite run_steps_prefix0; cbn; lia|].
+      destruct (assoc o meta); cbn [fst].
+      * destruct (run_steps_prefix3 (rename1 o n) (rename2 o) (rename3 n) k {| h_st := st; h_meta := meta; h_mem := disk; h_disk := disk |}) as [P|[P|[P|P]]]; rewrite P; cbn; lia.
+      * destruct (run_steps_prefix1 (rename1 o n) k {| h_st := st; h_meta := meta; h_mem := disk; h_disk := disk |}) as [P|P]; rewrite P; cbn; lia.
+Qed.
+
+Lemma next_mono_run v ops : forall h, hinv h -> r_next (h_mem h) <= r_next (h_mem (run v ops h)).
+Proof.
+  induction ops as [|o ops IH]; intros h H; [cbn; lia|].
+  change (run v (o :: ops) h) with (run v ops (step v h o)).
+  pose proof (next_mono_step v h o H). pose proof (IH _ (hinv_step v h o H)). lia.
+Qed.
+
+(** creating a name that does not exist: the dataset gets the id [next], which is above every id that
+    occurs in any key, in any record and in the deleted set; the dataset is empty *)
+Lemma collect_none {K A} (ok : K -> bool) (f : dstate -> list A) l :
+  (forall p, In p l -> ok (fst p) = true -> f (snd p) = []) -> collect ok f l = [].
+Proof.
+  induction l as [|p l IH]; intros H; [reflexivity|]. rewrite collect_cons, IH by (intros; apply H; [now right | assumption]).
+  destruct (ok (fst p)) eqn:E; [|reflexivity]. rewrite (H p) by (auto; now left). reflexivity.
+Qed.
+
+Lemma f_get_empty id at_ : f_get id at_ dstate0 = []. Proof. reflexivity. Qed.
+Lemma f_out_empty s p : f_out s p dstate0 = []. Proof. reflexivity. Qed.
+Lemma f_in_empty s p : f_in s p dstate0 = []. Proof. reflexivity. Qed.
+
+Theorem fresh_create v h n :
+  hinv h -> assoc n (h_names h) = None ->
+  let i := r_next (h_mem h) in
+  let h' := fst (run_mop v (MCreate n) h) in
+  assoc n (h_names h') = Some i
+  /\ Forall (fun j => j < i) (map fst (h_data h))
+  /\ Forall (fun j => j < i) (map snd (h_names h))
+  /\ Forall (fun j => j < i) (h_del h)
+  /\ (forall since limit latest, 0 <= since -> obs h' (QChanges n since limit latest) = AChanges [] since)
+  /\ (forall from count, obs h' (QEntities n from count) = APage [])
+  /\ (forall id, obs h' (QGet id [n]) = AGet (GOk [] false))
+  /\ (forall s p inv, obs h' (QRelated s p inv [n]) = ARel []).
+Proof.
+  intros [Hs Hd] Hn. destruct h as [st meta mem disk]. cbn in Hs. subst mem. unfold h_names in Hn. cbn in Hn.
+  unfold dinvh in Hd. cbn in Hd. pose proof Hd as Hd0. inv_rinv Hd0.
+  cbv zeta. unfold run_mop. cbn [plan h_mem h_meta r_names].
+  assert (En : has_name n (r_names disk) = false) by now apply has_name_assoc.
+  rewrite En. cbn [fst run_steps fold_left].
+  assert (Hgone : assoc (r_next disk) (s_ds st) = None).
+  { apply assoc_None. intros Hin. rewrite Forall_forall in Hbound. specialize (Hbound _ Hin). lia. }
+  assert (Hget : get_ds {| s_ds := s_ds st ++ [(r_next disk, dstate0)]; s_clock := s_clock st |} (r_next disk) = dstate0).
+  { unfold get_ds. cbn. rewrite assoc_app_none by exact Hgone. cbn. now rewrite Z.eqb_refl. }
+  assert (Hlook : assoc n (r_names disk ++ [(n, r_next disk)]) = Some (r_next disk)).
+  { rewrite assoc_app_none by exact Hn. cbn. now rewrite Z.eqb_refl. }
+  assert (Hcol : forall A (f : dstate -> list A) dl, f dstate0 = [] ->
+            collect (pass dl [r_next disk]) f (s_ds st ++ [(r_next disk, dstate0)]) = []).
+  { intros A f dl Hf. apply collect_none. intros p Hp Hok. apply in_app_or in Hp. destruct Hp as [Hp|[Hp|[]]].
+    - exfalso. unfold pass in Hok. apply andb_true_iff in Hok. destruct Hok as [_ Hok]. cbn in Hok.
+      rewrite orb_false_r in Hok. apply Z.eqb_eq in Hok.
+      rewrite Forall_forall in Hbound. specialize (Hbound (fst p) (in_map fst _ _ Hp)). lia.
+    - subst p. exact Hf. }
+  repeat split.
+  - cbn. exact Hlook.
+  - exact Hbound.
+  - eapply Forall_impl; [|exact Hidb]. cbn. intros; lia.
+  - exact Hdelb.
+  - intros since limit latest Hsince. cbn [obs h_names h_mem create3 create2 create1 upd_meta upd_st upd_mem upd_disk r_set_names r_set_next r_names h_st].
+    match goal with |- context [assoc n ?l] => replace (assoc n l) with (Some (r_next disk)) by (symmetry; exact Hlook) end. rewrite Hget. unfold changes. cbn. reflexivity.
+  - intros from count. cbn [obs h_names h_mem create3 create2 create1 upd_meta upd_st upd_mem upd_disk r_set_names r_set_next r_names h_st].
+    match goal with |- context [assoc n ?l] => replace (assoc n l) with (Some (r_next disk)) by (symmetry; exact Hlook) end. rewrite Hget. unfold listing_page. cbn. destruct from; reflexivity.
+  - intros id. cbn [obs h_names h_mem h_del h_data h_now create3 create2 create1 upd_meta upd_st upd_mem upd_disk r_set_names r_set_next r_names r_deleted h_st s_ds scope_ids flat_map].
+    match goal with |- context [assoc n ?l] => replace (assoc n l) with (Some (r_next disk)) by (symmetry; exact Hlook) end. cbn [app]. unfold get_raw. rewrite Hcol by apply f_get_empty. reflexivity.
+  - intros s p inv. cbn [obs h_names h_mem h_del h_data h_now create3 create2 create1 upd_meta upd_st upd_mem upd_disk r_set_names r_set_next r_names r_deleted h_st s_ds scope_ids flat_map].
+    match goal with |- context [assoc n ?l] => replace (assoc n l) with (Some (r_next disk)) by (symmetry; exact Hlook) end. cbn [app]. rewrite Hcol by (destruct inv; reflexivity). reflexivity.
+Qed.
+(** ** rename *)
+Theorem rename_ok v h o n i :
+  hinv h -> o <> core -> assoc o (h_names h) = Some i -> n <> o -> assoc n (h_names h) = None ->
+  let h' := fst (run_mop v (MRename o n) h) in
+  assoc n (h_names h') = Some i /\ assoc o (h_names h') = None
+  /\ h_st h' = h_st h /\ h_del h' = h_del h
+  /\ (forall m, m <> o -> m <> n -> assoc m (h_names h') = assoc m (h_names h))
+  /\ (forall since limit latest, obs h' (QChanges n since limit latest) = obs h (QChanges o since limit latest)
+                                 /\ obs h' (QChanges o since limit latest) = ANoDataset)
+  /\ (forall from count, obs h' (QEntities n from count) = obs h (QEntities o from count)
+                         /\ obs h' (QEntities o from count) = ANoDataset)
+  /\ (forall id, get_raw (pass (h_del h') (scope_ids (h_names h') [n])) id (h_now h') (h_data h')
+                 = get_raw (pass (h_del h) (scope_ids (h_names h) [o])) id (h_now h) (h_data h))
+  /\ (forall s p inv, obs h' (QRelated s p inv [n]) = obs h (QRelated s p inv [o])).
+Proof.
+  intros [Hs Hd] Hcore Ho Hno Hn. destruct h as [st meta mem disk]. cbn in Hs. subst mem.
+  unfold h_names in *. cbn in Ho, Hn. cbv zeta. unfold run_mop. cbn [plan h_mem h_meta r_names].
+  destruct (Z.eqb_spec o core) as [|_]; [contradiction|]. rewrite Ho.
+  destruct (Z.eqb_spec n o) as [|_]; [contradiction|].
+  assert (En : has_name n (r_names disk) = false) by now apply has_name_assoc. rewrite En.
+  assert (A1 : assoc n (relabel o n (r_names disk)) = Some i) by now apply assoc_relabel_new.
+  assert (A2 : assoc o (relabel o n (r_names disk)) = None) by (apply assoc_relabel_old; auto).
+  assert (G : forall hh, h_st hh = st -> r_names (h_mem hh) = relabel o n (r_names disk) -> r_deleted (h_mem hh) = r_deleted disk ->
+     assoc n (r_names (h_mem hh)) = Some i /\ assoc o (r_names (h_mem hh)) = None
+  /\ h_st hh = st /\ h_del hh = r_deleted disk
+  /\ (forall m, m <> o -> m <> n -> assoc m (r_names (h_mem hh)) = assoc m (r_names disk))
+  /\ (forall since limit latest, obs hh (QChanges n since limit latest) = obs {| h_st := st; h_meta := meta; h_mem := disk; h_disk := disk |} (QChanges o since limit latest)
+                                 /\ obs hh (QChanges o since limit latest) = ANoDataset)
+  /\ (forall from count, obs hh (QEntities n from count) = obs {| h_st := st; h_meta := meta; h_mem := disk; h_disk := disk |} (QEntities o from count)
+                         /\ obs hh (QEntities o from count) = ANoDataset)
+  /\ (forall id, get_raw (pass (h_del hh) (scope_ids (h_names hh) [n])) id (h_now hh) (h_data hh)
+                 = get_raw (pass (r_deleted disk) (scope_ids (r_names disk) [o])) id (s_clock st) (s_ds st))
+  /\ (forall s p inv, obs hh (QRelated s p inv [n]) = obs {| h_st := st; h_meta := meta; h_mem := disk; h_disk := disk |} (QRelated s p inv [o]))).
+  { intros hh E1 E2 E3. unfold obs, h_names, h_del, h_data, h_now. rewrite E1, E2, E3. cbn [h_st h_mem r_names r_deleted scope_ids flat_map].
+    rewrite A1, A2, Ho. repeat split; auto.
+    intros m M1 M2. now apply assoc_relabel_other. }
+  destruct (assoc o meta); cbn [fst run_steps fold_left]; apply G; reflexivity.
+Qed.
+
+(** ** frame: what an operation that does not name dataset [m] leaves of it *)
+Definition kept (m : name) (j : Z) (d : dstate) (c : Z) (h : hub) : Prop :=
+  assoc m (r_names (h_mem h)) = Some j /\ assoc m (r_names (h_disk h)) = Some j /\ assoc j (h_data h) = Some d
+  /\ h_now h = c.
+
+Definition mop_subject (mo : mop) (m : name) : Prop :=
+  match mo with MCreate _ => False | MDelete n => n = m | MRename a _ => a = m end.
+
+Lemma kept_steps m j d c : forall ss h,
+  Forall (fun s : hub -> hub => forall x, kept m j d c x -> kept m j d c (s x)) ss -> kept m j d c h -> kept m j d c (run_steps ss h).
+Proof.
+  induction ss as [|s ss IH]; intros h F K; [exact K|]. inversion F as [|? ? Hx Hrest]; subst. cbn. apply IH; auto.
+Qed.
+Lemma Forall_firstn {A} (P : A -> Prop) k l : Forall P l -> Forall P (firstn k l).
+Proof. revert k. induction l as [|a l IH]; intros [|k] F; cbn; try constructor; inversion F as [|? ? Ha Hl]; subst; auto. Qed.
+
+Lemma plan_kept v mo h m j d c :
+  hinv h -> kept m j d c h -> ~ mop_subject mo m ->
+  Forall (fun s : hub -> hub => forall x, kept m j d c x -> kept m j d c (s x)) (fst (plan v mo h)).
+Proof.
+  intros [Hs Hd] K Hsub. destruct K as (K1 & K2 & K3 & K4).
+  destruct mo as [n|n|o n]; cbn [plan mop_subject] in *.
+  - destruct (has_name n (r_names (h_mem h))) eqn:En; cbn [fst]; [constructor|].
+    apply has_name_assoc in En.
+    constructor; [|constructor; [|constructor; [|constructor]]].
+    + intros x (X1 & X2 & X3 & X4). repeat split; assumption.
+    + intros x (X1 & X2 & X3 & X4). repeat split; cbn; try (apply assoc_app_some; assumption); try assumption.
+    + intros x (X1 & X2 & X3 & X4). repeat split; assumption.
+  - destruct (Z.eqb n core); cbn [fst]; [constructor|].
+    destruct (assoc n (r_names (h_mem h))) as [i|]; cbn [fst]; [|constructor].
+    assert (S1 : forall x, kept m j d c x -> kept m j d c (delete1 (v_del_atomic v) n i x)).
+    { intros x (X1 & X2 & X3 & X4). unfold delete1. destruct (v_del_atomic v); repeat split; cbn;
+        try (rewrite assoc_remove_other by congruence; assumption); assumption. }
+    assert (S2 : forall x, kept m j d c x -> kept m j d c (delete2 (v_del_atomic v) i x)).
+    { intros x (X1 & X2 & X3 & X4). unfold delete2. destruct (v_del_atomic v); repeat split; cbn; assumption. }
+    assert (S3 : forall x, kept m j d c x -> kept m j d c (delete3 n x)).
+    { intros x (X1 & X2 & X3 & X4). repeat split; assumption. }
+    destruct (assoc n (h_meta h)); cbn [fst]; [constructor; [|constructor; [|constructor; [|constructor]]] | constructor; [|constructor; [|constructor]]]; assumption.
+  - destruct (Z.eqb o core); cbn [fst]; [constructor|].
+    destruct (assoc o (r_names (h_mem h))) as [i|]; cbn [fst]; [|constructor].
+    destruct (Z.eqb n o); cbn [fst]; [constructor|].
+    destruct (has_name n (r_names (h_mem h))) eqn:En; cbn [fst]; [constructor|].
+    apply has_name_assoc in En.
+    assert (Hmn : m <> n) by (intros ->; congruence).
+    assert (S1 : forall x, kept m j d c x -> kept m j d c (rename1 o n x)).
+    { intros x (X1 & X2 & X3 & X4). repeat split; cbn; try (rewrite assoc_relabel_other by congruence; assumption); assumption. }
+    assert (S2 : forall x, kept m j d c x -> kept m j d c (rename2 o x)).
+    { intros x (X1 & X2 & X3 & X4). repeat split; assumption. }
+    assert (S3 : forall x, kept m j d c x -> kept m j d c (rename3 n x)).
+    { intros x (X1 & X2 & X3 & X4). repeat split; assumption. }
+    destruct (assoc o (h_meta h)); cbn [fst]; [constructor; [|constructor; [|constructor; [|constructor]]] | constructor; [|constructor]]; assumption.
+Qed.
+
+Definition op_subject (o : op) (m : name) : Prop :=
+  match o with
+  | OWrite _ _ => True                       (* frame is about manager operations, collection, restart and crashes *)
+  | OMop mo | OCrash mo _ => mop_subject mo m
+  | OGc | ORestart => False
+  end.
+
+Theorem frame_step v h o m j d c :
+  hinv h -> kept m j d c h -> ~ op_subject o m -> kept m j d c (step v h o).
+Proof.
+  intros H K Hs. destruct o as [n ents | mo | | | mo k]; cbn [step op_subject] in *.
+  - tauto.
+  - unfold run_mop. destruct (plan v mo h) as [ss oc] eqn:E. cbn [fst].
+    pose proof (plan_kept v mo h m j d c H K Hs) as F. rewrite E in F. cbn [fst] in F.
+    apply kept_steps; assumption.
+  - destruct K as (K1 & K2 & K3 & K4). pose proof H as [Hs' Hd]. repeat split; try assumption.
+    unfold h_data, gc. cbn. rewrite assoc_filter_keep; [exact K3|].
+    intros w. cbn. destruct (names_id_of _ _ _ _ Hd K2) as (_ & L & _). rewrite Hs'. now rewrite L.
+  - destruct K as (K1 & K2 & K3 & K4). unfold restart. destruct (v_reconcile v); repeat split; assumption.
+  - unfold crash_mop.
+    pose proof (plan_kept v mo h m j d c H K Hs) as F. apply (Forall_firstn _ k) in F.
+    pose proof (kept_steps m j d c _ h F K) as (K1 & K2 & K3 & K4).
+    unfold restart. destruct (v_reconcile v); repeat split; assumption.
+Qed.
+
+(** the observables of a dataset (by name, or scoped to its name) are determined by what [kept] keeps *)
+Lemma collect_single {A} (f : dstate -> list A) dl j : forall l lo,
+  incr lo (map fst l) ->
+  collect (pass dl [j]) f l
+  = match assoc j l with Some d => if zmem j dl then [] else map (pair j) (f d) | None => [] end.
+Proof.
+  induction l as [|[k w] l IH]; intros lo Hi; [reflexivity|]. cbn in Hi. destruct Hi as [H1 H2].
+  rewrite collect_cons. cbn [fst snd assoc]. rewrite (IH k H2). unfold pass. cbn [in_scope existsb]. rewrite orb_false_r.
+  rewrite (Z.eqb_sym k j). destruct (Z.eqb_spec j k).
+  - subst k. assert (N : assoc j l = None).
+    { apply assoc_None. intros Hin. apply incr_lt in H2. rewrite Forall_forall in H2. specialize (H2 _ Hin). lia. }
+    rewrite N, app_nil_r, andb_true_r. now destruct (zmem j dl).
+  - now rewrite andb_false_r.
+Qed.
+
+Lemma name_parts_single {A} nm j m (xs : list A) :
+  rassoc j nm = Some m -> name_parts nm (map (pair j) xs) = Some (map (pair m) xs).
+Proof. intros R. induction xs as [|x xs IH]; cbn; [reflexivity|]. now rewrite R, IH. Qed.
+
+Lemma filter_map_pair {A} (j : Z) (p : A -> bool) (xs : list A) :
+  filter (fun q => p (snd q)) (map (pair j) xs) = map (pair j) (filter p xs).
+Proof. induction xs as [|x xs IH]; cbn; [reflexivity|]. destruct (p x); cbn; now rewrite IH. Qed.
+
+Theorem frame_obs h h' m j d c q :
+  hinv h -> hinv h' -> kept m j d c h -> kept m j d c h' ->
+  (match q with
+   | QChanges n _ _ _ | QEntities n _ _ => n = m
+   | QGet _ scope | QRelated _ _ _ scope => scope = [m]
+   | _ => False
+   end) ->
+  obs h q = obs h' q.
+Proof.
+  assert (G : forall x, hinv x -> kept m j d c x ->
+     assoc m (h_names x) = Some j /\ get_ds (h_st x) j = d /\ zmem j (h_del x) = false /\ rassoc j (h_names x) = Some m
+     /\ (forall A (f : dstate -> list A), collect (pass (h_del x) [j]) f (h_data x) = map (pair j) (f d)) /\ h_now x = c).
+  { intros x [Hs Hd] (K1 & K2 & K3 & K4). pose proof Hd as Hd0. inv_rinv Hd0.
+    destruct (names_id_of _ _ _ _ Hd K2) as (_ & L & _).
+    unfold h_names, h_del. rewrite Hs. repeat split; auto.
+    - unfold get_ds. unfold h_data in K3. now rewrite K3.
+    - apply In_rassoc; [assumption|]. now apply assoc_In.
+    - intros A f. rewrite (collect_single f _ j _ 0 Hsorted). unfold h_data in K3. now rewrite K3, L. }
+  intros H H' K K' Hq.
+  destruct (G h H K) as (A1 & A2 & A3 & A4 & A5 & A6). destruct (G h' H' K') as (B1 & B2 & B3 & B4 & B5 & B6).
+  destruct q as [| |n since limit latest|n from count|id scope|st pred inverse scope]; try contradiction; rewrite Hq; cbn [obs scope_ids flat_map].
+  - now rewrite A1, B1, A2, B2.
+  - now rewrite A1, B1, A2, B2.
+  - rewrite A1, B1. cbn [app]. unfold get_raw. rewrite A5, B5, A6, B6.
+    rewrite (filter_map_pair j (fun x => negb (c_del x))), !(name_parts_single _ j m) by assumption. reflexivity.
+  - rewrite A1, B1. cbn [app]. now rewrite A5, B5.
+Qed.
+(** ** crash atomicity *)
+Lemma obs_ext h h' q :
+  h_names h = h_names h' -> h_del h = h_del h' -> h_st h = h_st h' -> live_metas (h_meta h) = live_metas (h_meta h') ->
+  obs h q = obs h' q.
+Proof.
+  intros E1 E2 E3 E4. unfold obs, h_data, h_now. rewrite E1, E2, E3, E4. reflexivity.
+Qed.
+
+Lemma live_reconcile names m : live_metas (reconcile names m) = zcanon names.
+Proof.
+  unfold live_metas, reconcile. rewrite filter_app, map_app.
+  assert (A : forall l, filter (fun p : name * bool => snd p) (map (fun n => (n, true)) l) = map (fun n => (n, true)) l).
+  { induction l as [|x l IH]; cbn; [reflexivity | now rewrite IH]. }
+  assert (B : forall l : list (name * bool), filter (fun p : name * bool => snd p) (map (fun p => (fst p, false)) l) = []).
+  { induction l as [|x l IH]; cbn; [reflexivity | exact IH]. }
+  rewrite A, B, app_nil_r, map_map. cbn. now rewrite map_id.
+Qed.
+
+Lemma live_restart_fixed x : live_metas (h_meta (restart v_fixed x)) = zcanon (map fst (r_names (h_disk x))).
+Proof. unfold restart. cbn [v_fixed mkv v_reconcile]. cbn [upd_meta h_meta]. apply live_reconcile. Qed.
+
+(** in the repaired variant: for every state whose in-memory registry equals the persisted one (every
+    reachable state), every manager operation and every hook point, the restarted process answers every
+    query either as if the operation had never been called or as if it had completed *)
+Theorem crash_atomic_fixed h mo k :
+  h_mem h = h_disk h ->
+  let h' := crash_mop v_fixed mo k h in
+  (forall q, obs h' q = obs (restart v_fixed h) q)
+  \/ (forall q, obs h' q = obs (restart v_fixed (fst (run_mop v_fixed mo h))) q).
+Proof.
+  intros Hs. destruct h as [st meta mem disk]. cbn in Hs. subst mem. cbv zeta.
+  unfold crash_mop, run_mop.
+  assert (R0 : forall x, run_steps (firstn k []) x = x) by (intros; apply run_steps_prefix0).
+  destruct mo as [n|n|o n]; cbn [plan h_mem h_meta r_names v_fixed mkv v_del_atomic].
+  - destruct (has_name n (r_names disk)); cbn [fst]; [left; intros q; now rewrite R0|].
+    destruct (run_steps_prefix3 create1 (create2 n (r_next disk)) (create3 n) k {| h_st := st; h_meta := meta; h_mem := disk; h_disk := disk |}) as [P|[P|[P|P]]]; rewrite P.
+    + left. reflexivity.
+    + left. intros q. apply obs_ext; try reflexivity; rewrite !live_restart_fixed; reflexivity.
+    + right. intros q. apply obs_ext; try reflexivity; rewrite !live_restart_fixed; reflexivity.
+    + right. intros q. reflexivity.
+  - destruct (Z.eqb n core); cbn [fst]; [left; intros q; now rewrite R0|].
+    destruct (assoc n (r_names disk)) as [i|]; cbn [fst]; [|left; intros q; now rewrite R0].
+    destruct (assoc n meta); cbn [fst].
+    + destruct (run_steps_prefix3 (delete1 true n i) (delete2 true i) (delete3 n) k {| h_st := st; h_meta := meta; h_mem := disk; h_disk := disk |}) as [P|[P|[P|P]]]; rewrite P.
+      * left. reflexivity.
+      * right. intros q. apply obs_ext; try reflexivity; rewrite !live_restart_fixed; reflexivity.
+      * right. intros q. apply obs_ext; try reflexivity; rewrite !live_restart_fixed; reflexivity.
+      * right. reflexivity.
+    + destruct (run_steps_prefix2 (delete1 true n i) (delete2 true i) k {| h_st := st; h_meta := meta; h_mem := disk; h_disk := disk |}) as [P|[P|P]]; rewrite P.
+      * left. reflexivity.
+      * right. intros q. apply obs_ext; try reflexivity.
+      * right. reflexivity.
+  - destruct (Z.eqb o core); cbn [fst]; [left; intros q; now rewrite R0|].
+    destruct (assoc o (r_names disk)) as [i|]; cbn [fst]; [|left; intros q; now rewrite R0].
+    destruct (Z.eqb n o); cbn [fst]; [left; intros q; now rewrite R0|].
+    destruct (has_name n (r_names disk)); cbn [fst]; [left; intros q; now rewrite R0|].
+    destruct (assoc o meta); cbn [fst].
+    + destruct (run_steps_prefix3 (rename1 o n) (rename2 o) (rename3 n) k {| h_st := st; h_meta := meta; h_mem := disk; h_disk := disk |}) as [P|[P|[P|P]]]; rewrite P.
+      * left. reflexivity.
+      * right. intros q. apply obs_ext; try reflexivity; rewrite !live_restart_fixed; reflexivity.
+      * right. intros q. apply obs_ext; try reflexivity; rewrite !live_restart_fixed; reflexivity.
+      * right. reflexivity.
+    + destruct (run_steps_prefix1 (rename1 o n) k {| h_st := st; h_meta := meta; h_mem := disk; h_disk := disk |}) as [P|P]; rewrite P.
+      * left. reflexivity.
+      * right. reflexivity.
+Qed.
+
+(** the pinned tree: witnesses.  [h_w] = datasets a (2) and b (3), both holding e1 *)
+Definition c_w (p : Z) : content := {| c_del := false; c_props := [(1001, {| pv_code := p; pv_obj := false |})]; c_refs := []; c_len := 0 |}.
+Definition e_w (p : Z) : ent := {| e_id := 1; e_c := c_w p |}.
+Definition h_w : hub :=
+  run v_current [OMop (MCreate 1); OMop (MCreate 2); OWrite 1 [e_w 1]; OWrite 2 [e_w 2]] hub0.
+
+Definition atomic_on (v : variant) (h : hub) (mo : mop) (k : nat) (qs : list query) : Prop :=
+  (forall q, In q qs -> obs (crash_mop v mo k h) q = obs (restart v h) q)
+  \/ (forall q, In q qs -> obs (crash_mop v mo k h) q = obs (restart v (fst (run_mop v mo h))) q).
+
+(** F07a: dying after the first step of delete: the dataset is gone from the list (so it is not the state before)
+    but its data is still returned by an unscoped lookup (so it is not the state after) *)
+Theorem crash_refuted_delete_1 : ~ atomic_on v_current h_w (MDelete 2) 1 [QNames; QGet 1 []].
+Proof.
+  intros [H|H].
+  - specialize (H QNames (or_introl eq_refl)). vm_compute in H. discriminate.
+  - specialize (H (QGet 1 []) (or_intror (or_introl eq_refl))). vm_compute in H. discriminate.
+Qed.
+(** ... and it stays like that for good: garbage collection does not collect it, the lookup fails with "dataset not found" *)
+Theorem crash_refuted_delete_1_gc :
+  let h := gc (crash_mop v_current (MDelete 2) 1 h_w) in
+  obs h QNames = ANames [0; 1] /\ obs h (QGet 1 []) = AGet GErr /\ length (h_data h) = 3%nat.
+Proof. vm_compute. auto. Qed.
+(** F19a: dying after the record is stored: listed, but no dataset entity - and create does not repair it *)
+Theorem crash_refuted_create_2 : ~ atomic_on v_current h_w (MCreate 3) 2 [QNames; QMetas].
+Proof.
+  intros [H|H].
+  - specialize (H QNames (or_introl eq_refl)). vm_compute in H. discriminate.
+  - specialize (H QMetas (or_intror (or_introl eq_refl))). vm_compute in H. discriminate.
+Qed.
+Theorem crash_create_2_not_repaired :
+  let h := fst (run_mop v_current (MCreate 3) (crash_mop v_current (MCreate 3) 2 h_w)) in
+  obs h QNames = ANames [0; 1; 2; 3] /\ obs h QMetas = ANames [0; 1; 2]
+  /\ snd (run_mop v_current (MDelete 3) h) = OPanic.
+Proof. vm_compute. auto. Qed.
+Theorem crash_refuted_rename_1 : ~ atomic_on v_current h_w (MRename 2 3) 1 [QNames; QMetas].
+Proof.
+  intros [H|H].
+  - specialize (H QNames (or_introl eq_refl)). vm_compute in H. discriminate.
+  - specialize (H QMetas (or_intror (or_introl eq_refl))). vm_compute in H. discriminate.
+Qed.
+Theorem crash_refuted_delete_2 : ~ atomic_on v_current h_w (MDelete 2) 2 [QNames; QMetas].
+Proof.
+  intros [H|H].
+  - specialize (H QNames (or_introl eq_refl)). vm_compute in H. discriminate.
+  - specialize (H QMetas (or_intror (or_introl eq_refl))). vm_compute in H. discriminate.
+Qed.
+(** the same witnesses are atomic in the repaired variant (non-vacuity of [crash_atomic_fixed]) *)
+Example crash_fixed_witness :
+  obs (crash_mop v_fixed (MDelete 2) 1 h_w) (QGet 1 []) = AGet (GOk [(1, c_w 1)] false)
+  /\ obs (crash_mop v_fixed (MDelete 2) 1 h_w) QNames = ANames [0; 1]
+  /\ obs (crash_mop v_fixed (MCreate 3) 2 h_w) QMetas = ANames [0; 1; 2; 3].
+Proof. vm_compute. auto. Qed.
